@@ -285,3 +285,16 @@ contract('odml/section.py::BaseSection.__init__',
          on_raise='Same',
          invariants={0: 'True'},
          props=('C03', 'C04', 'C06'))
+
+# ---- C14: name lookup among children returns THE child of that name -------------------------------
+contract('odml/base.py::Sectionable._match_iterable',
+         types={'self': ('BaseSection', 'BaseDocument'), 'iterable': 'SmartList', 'key': 'any'},
+         pure=True, inline=False,
+         requires='is_str(key) and owned(iterable)',
+         ensures=['listed(iterable, result)', 'field(result, "_name") == key',
+                  'all(implies(field(item(iterable, j), "_name") == key, item(iterable, j) is result) '
+                  'for j in range(llen(iterable)))'],
+         raises={'ValueError': 'all(field(item(iterable, j), "_name") != key for j in range(llen(iterable)))'},
+         invariants={0: 'all(field(item(_it, j), "_name") != key for j in range(_i))'},
+         result_types=('BaseSection', 'BaseProperty'),
+         props=('C14',))
